@@ -50,11 +50,11 @@ def queries(tier, seed=0):
                         for t in tg:
                             qs.append(dict(kind=kind, name=nm, os=None, shape=sh, fully_obs=fo,
                                            flat_obs=fob, target=t, level='step'))
-    tsh = Shape([2, 1], 2, 2, 1).to_json()
-    for carrier in ('int', 'npint'):
-        qs.append(dict(kind='types', shape=tsh, flat_actions=True, carrier=carrier, target=[1, 0], no_reach=True))
-    for carrier in ('list', 'tuple', 'ndarray'):
-        qs.append(dict(kind='types', shape=tsh, flat_actions=False, carrier=carrier, target=[1, 0], no_reach=True))
+    for tsh in (Shape([2, 1], 2, 2, 1).to_json(), Shape([1, 2], 2, 2, 1, (5, 4)).to_json()):
+        for carrier in ('int', 'npint'):
+            qs.append(dict(kind='types', shape=tsh, flat_actions=True, carrier=carrier, target=[1, 0], no_reach=True))
+        for carrier in ('list', 'tuple', 'ndarray'):
+            qs.append(dict(kind='types', shape=tsh, flat_actions=False, carrier=carrier, target=[1, 0], no_reach=True))
     return qs
 
 
